@@ -48,6 +48,28 @@ PROPS = {
         "assumptions": ["`unsafe impl Send/Sync` would be accepted by rustc without proof; a scan for them is part of the evidence (none present)"],
         "design_ref": "DESIGN.md section 4.12",
     },
+    "C12": {
+        "kind": "kani", "engine": "kani", "search": False,
+        "technique": "Kani/CBMC harnesses asserting the conversion postconditions on the real crate: loop-free, full-domain symbolic inputs (complete); heap payloads bounded and labelled",
+        "trusted_base": ["Kani 0.68.0 / CBMC 6.11.0 and Kani's models of std (alloc, Box, Vec, memcmp)",
+            "the harnesses assert the postconditions on the real compiled functions of /repo (external crate, path dependency); contract attributes cannot be attached to the macro-generated impls without editing /repo, and for leaf functions a harness-asserted postcondition is the same obligation",
+            "rustc monomorphisation of the macro-generated impls"],
+        "assumptions": ["complete: bool, i8..i64, u8..u64, f32/f64 (all bit patterns), char; Option<T> of each; every (source scalar variant, target type) pair; as_null / dummy_value on scalar variants; tuples of arity 1, 2, 3, 4, 12 and ValueTuple::into_iter",
+            "bounded (not proved): Vec<u8> payloads of length <= 3; String payloads are not explored (string code is out of CBMC's reach here)",
+            "not covered: tuple arities 5..11 (same macro as 4 and 12), JSON, chrono, time, Decimal, BigDecimal, Uuid, arrays, vectors (optional features)"],
+        "design_ref": "DESIGN.md section 4.11",
+    },
+    "C18": {
+        "kind": "kani", "engine": "kani", "search": False,
+        "technique": "Kani/CBMC harnesses on the real Value::{eq, hash} with feature hashable-value: reflexive / symmetric / transitive / variant separation / payload equality / eq => identical hasher input, all scalar variants and all float bit patterns",
+        "trusted_base": ["Kani 0.68.0 / CBMC 6.11.0 and Kani's models of std (alloc, Box, Vec, memcmp)",
+            "the harnesses assert the postconditions on the real compiled functions of /repo (external crate, path dependency); contract attributes cannot be attached to the macro-generated impls without editing /repo, and for leaf functions a harness-asserted postcondition is the same obligation",
+            "rustc monomorphisation of the macro-generated impls"],
+        "assumptions": ["complete over the 12 scalar variants (Some and None payloads, every f32/f64 bit pattern incl. NaN payloads, +-0, infinities) plus String(None) and Bytes(None); ordered-float is compiled and checked, not assumed",
+            "Eq => Hash is shown by a recording Hasher receiving the identical byte sequence, so it holds for any hasher",
+            "not covered: String / Bytes payloads, ValueTuple, JSON key order, vectors, nested arrays (heap / optional features)"],
+        "design_ref": "DESIGN.md section 4.11",
+    },
     "C17": {
         "kind": "verus",
         "units": [{"name": "escape"}],
@@ -77,6 +99,8 @@ PROPS = {
 }
 
 LEVEL_TEXT = {
+    "C12": "Complete proof (CBMC, no unwinding bound needed or unwinding assertions on) for every value of the scalar types, their Options, every variant/type mismatch and the listed tuple arities; heap-payload checks are bounded stand-ins, labelled and not counted.",
+    "C18": "Complete proof (CBMC) over all scalar variants and all float bit patterns that == is an equivalence relation separating variants and that equal values feed identical bytes to any Hasher.",
     "C20": "Type-level proof for all values: the contract `where T: Send + Sync` is instantiated at every nameable non-generic public type of the crate (built with feature thread-safe) and discharged by rustc's trait solver; a type that stops being Send or Sync is a compile error naming the offending field.",
     "C04": "Unbounded proof for all identifier strings: the extracted Iden::prepare satisfies `quoted_ident(output ++ rest) == (name, |output|)` for every rest not starting with the quote, for both quote characters; the backends' QUOTE constants are verified to be those characters; every raw quoting site found in src/backend on this run satisfies the same contract.",
     "C17": "Unbounded proof for all strings: escape_string's postcondition is `unescape_spec(result) == input` and unescape_string's is `result == unescape_spec(input)` on the extracted bodies of all three backends (default chain of 8 replacements proved equal to a single-pass map; SQLite quote doubling vs leftmost non-overlapping '' replacement); the property is the verified composition `roundtrip`.",
@@ -90,10 +114,10 @@ NOT_APPLICABLE = {
     "C07": "defined by executing statements on a real SQLite engine and comparing rows/table contents; no contract on sea-query's functions can express an engine's evaluation semantics and neither Verus nor Kani can take SQLite's C code as a callee (DESIGN.md section 6)",
     "C08": _NOT_YET,
     "C09": "equality of query RESULTS of three renderings on executing engines and equivalence of emulations (IS NULL ordering, IFNULL/COALESCE, GREATEST/MAX): engine semantics, outside any contract on this code (DESIGN.md section 6)",
-    "C10": _NOT_YET, "C11": _NOT_YET, "C12": _NOT_YET,
+    "C10": _NOT_YET, "C11": _NOT_YET, 
     "C13": "decided by the SQLite catalogue (PRAGMA table_xinfo, sqlite_master) after executing DDL; no contract reaches the engine's DDL interpreter or its type-affinity rules (DESIGN.md section 6)",
     "C14": "needs a MySQL/Postgres DDL grammar as oracle; its core is a 40-arm format! table whose only possible contract is a copy of itself (DESIGN.md section 6)",
-    "C15": _NOT_YET, "C18": _NOT_YET,
+    "C15": _NOT_YET,
     "C19": "the mapping is computed at compile time by a proc-macro over syn token trees with heck; the quantifier is over programs; neither Verus nor Kani can take proc_macro/syn/quote code (DESIGN.md section 6)",
     
 }
